@@ -2107,7 +2107,8 @@ func (mgr *Manager) ListPcapProcessorWebhooks() []string {
 		if mgr.pcapProcessorWebhookUrls == nil {
 			c <- []string{}
 		} else {
-			c <- mgr.pcapProcessorWebhookUrls
+			// the caller reads the list in its own goroutine: hand out a copy
+			c <- slices.Clone(mgr.pcapProcessorWebhookUrls)
 		}
 		close(c)
 	}
@@ -2125,9 +2126,11 @@ func (mgr *Manager) AddPcapProcessorWebhook(url string) error {
 			}
 		}
 		mgr.pcapProcessorWebhookUrls = append(mgr.pcapProcessorWebhookUrls, url)
+		// listeners read the event in their own goroutines: it carries a copy of the list
+		webhooks := slices.Clone(mgr.pcapProcessorWebhookUrls)
 		mgr.event(Event{
 			Type:     "webhooksUpdated",
-			Webhooks: &mgr.pcapProcessorWebhookUrls,
+			Webhooks: &webhooks,
 		})
 		c <- mgr.saveState()
 		close(c)
@@ -2141,9 +2144,10 @@ func (mgr *Manager) DelPcapProcessorWebhook(url string) error {
 		for i, u := range mgr.pcapProcessorWebhookUrls {
 			if u == url {
 				mgr.pcapProcessorWebhookUrls = append(mgr.pcapProcessorWebhookUrls[:i], mgr.pcapProcessorWebhookUrls[i+1:]...)
+				webhooks := slices.Clone(mgr.pcapProcessorWebhookUrls)
 				mgr.event(Event{
 					Type:     "webhooksUpdated",
-					Webhooks: &mgr.pcapProcessorWebhookUrls,
+					Webhooks: &webhooks,
 				})
 				c <- mgr.saveState()
 				close(c)
